@@ -618,6 +618,41 @@ def probes(rng, tier):
         src = _PRE + _mk_src(axes) + "q = p.byaxis[%r]\nexpected = %r\n" % (sq, exp) + axw
         probe('byaxis-axiswise', 'byaxis[sel] is the partition made of the selected axes', src)
 
+    # -- P7 boundary cell fractions = part of the "natural" outermost cell that lies inside the set
+    fr = ("ok = True\n"
+          "for ax in range(p.ndim):\n"
+          "    c = p.coord_vectors[ax]; b = p.cell_boundary_vecs[ax]; fl, fr_ = p.boundary_cell_fractions[ax]\n"
+          "    if len(c) == 1:\n"
+          "        ok &= (fl, fr_) == (1.0, 1.0)\n"
+          "    else:\n"
+          "        ok &= abs(fl * (c[1] - c[0]) - (b[1] - b[0])) <= 1e-12 * max(1.0, abs(b[1] - b[0]))\n"
+          "        ok &= abs(fr_ * (c[-1] - c[-2]) - (b[-1] - b[-2])) <= 1e-12 * max(1.0, abs(b[-1] - b[-2]))\n"
+          "        ok &= p.nodes_on_bdry_byaxis[ax] == (bool(np.isclose(c[0], b[0])), bool(np.isclose(c[-1], b[-1])))\n"
+          "ok = bool(ok); observed = p.boundary_cell_fractions\n")
+    for _ in range(30 * N):
+        axes = [(_rand_float_axis(rng) if rng.random() < 0.5 else rand_axis(rng)) for _ in range(rng.choice([1, 2]))]
+        probe('boundary-cell-fractions', 'fraction * natural cell width = width of the outermost cell; nodes_on_bdry flags',
+              _PRE + _mk_src(axes) + fr)
+    # -- P8 default limits of nonuniform_partition / uniform_partition_fromgrid: outermost nodes are cell midpoints
+    for _ in range(30 * N):
+        lo, hi, c = _rand_float_axis(rng, rng.choice([2, 3, 5])) if rng.random() < 0.5 else rand_axis(rng, 5, n=rng.choice([2, 3, 5]))
+        fl = (rng.random() < 0.4, rng.random() < 0.4)
+        give_min = (not fl[0]) and rng.random() < 0.3
+        give_max = (not fl[1]) and rng.random() < 0.3
+        kw = ''.join([', min_pt=%r' % lo if give_min else '', ', max_pt=%r' % hi if give_max else ''])
+        chk = ("b = p.cell_boundary_vecs[0]; c = p.coord_vectors[0]\n"
+               "exp_lo = %s\nexp_hi = %s\n"
+               "ok = bool(abs(b[0] - exp_lo) <= 1e-12 and abs(b[-1] - exp_hi) <= 1e-12 and np.all(c == np.array(%r)))\n"
+               "observed = (b[0], b[-1]); expected = (exp_lo, exp_hi)\n")
+        e_lo = repr(lo) if give_min else ('c[0]' if fl[0] else 'c[0] - (b[1] - c[0])')
+        e_hi = repr(hi) if give_max else ('c[-1]' if fl[1] else 'c[-1] + (c[-1] - b[-2])')
+        probe('nonuniform-default-limits', 'nonuniform_partition: given limits are used, else node on the boundary / midpoint of its cell',
+              _PRE + "p = odl.nonuniform_partition(%r, nodes_on_bdry=[%r]%s)\n" % (list(c), fl, kw) + chk % (e_lo, e_hi, list(c)))
+        e_lo = repr(lo) if give_min else 'c[0] - (b[1] - c[0])'
+        e_hi = repr(hi) if give_max else 'c[-1] + (c[-1] - b[-2])'
+        probe('fromgrid-default-limits', 'uniform_partition_fromgrid: given limits are used, else the outermost nodes are cell midpoints',
+              _PRE + "p = odl.uniform_partition_fromgrid(odl.RectGrid(%r)%s)\n" % (list(c), kw) + chk % (e_lo, e_hi, list(c)))
+
     # -- P6 every consistent subset of (min_pt, max_pt, shape, cell_sides) gives the same partition
     for _ in range(40 * N):
         xmin, xmax, n, dx, fl = uniform_axis_params(rng, dyadic=rng.random() < 0.5)
